@@ -26,7 +26,7 @@ def mul_mono(ctx, a, b, c, tag='mono'):
     ctx.assume(a * c >= 0)
 
 
-def sym_domain(ctx, it, dim, init=True, positive_units=True):
+def sym_domain(ctx, it, dim, init=True, positive_units=True, check_init=False):
     """a DomainDefinition built by running the real __init__ on symbolic sizes (dim selects the admissible size class)"""
     nelx, nely, nelz = ctx.sym('nelx'), ctx.sym('nely'), ctx.sym('nelz')
     ux, uy, uz = ctx.sym('unitx', 'real'), ctx.sym('unity', 'real'), ctx.sym('unitz', 'real')
@@ -41,7 +41,11 @@ def sym_domain(ctx, it, dim, init=True, positive_units=True):
         for u in (ux, uy, uz):
             ctx.assume(V.cmp('>', u, 0))
     cls = it.get_function(DOMAIN)
+    # the constructor's own safety obligations (index bounds of its scatter) are proved once, in C13.__init__.counts / __init__.conn
+    old = ctx.safety_on
+    ctx.safety_on = check_init
     dom = it.call(cls, [nelx, nely, nelz, ux, uy, uz])
+    ctx.safety_on = old
     return dom, (nelx, nely, nelz), (ux, uy, uz)
 
 
